@@ -477,7 +477,9 @@ func blankTexts(pools unitPools, hosts map[string]pairHost) []string {
 				if toks[j].Kind != "ident" && toks[j].Kind != "str" {
 					continue
 				}
-				for _, blank := range []string{"", " "} {
+				// blank values, and quoted values that must stay quoted: a single placeholder-shaped word the lexer would split
+				// when written bare, and a value with a space
+				for _, blank := range []string{"", " ", "{vars.X}", "a b"} {
 					mod := append([]config.VerifToken(nil), toks...)
 					mod[j] = config.VerifToken{Kind: "str", Text: blank}
 					us := cloneUnits(h.units)
